@@ -167,6 +167,37 @@ QueueConsistent == /\ \A k \in Tasks : (tstate[k] = "queued") <=> (k \in Range(q
 AllDestroyedAtEnd == opc = "done" => \A k \in Tasks : tstate[k] \in {"none", "destroyed"}
 \* C07 liveness: a queued task is eventually run or destroyed
 C07live == \A k \in Tasks : (tstate[k] = "queued") ~> (tstate[k] \in {"running", "destroyed"})
+
+(* ---------------- C15: footprints and data-race freedom ---------------- *)
+\* What the NEXT step of a thread may touch: a set of [loc, w (write?), locks]. Plain (non-atomic) shared
+\* locations of ThreadPool / Thread: m_isRunning, m_queue, m_pool and m_isFinished of every worker thread.
+A(loc, w, locks) == [loc |-> loc, w |-> w, locks |-> locks]
+Loc(name) == <<name, 0>>           \* all locations are pairs, so that they compare
+FinLoc(w) == <<"isFinished", w>>
+OwnerAcc ==
+    CASE opc = "idle" -> {A(Loc("running"), FALSE, {})} \cup (IF ~running THEN {A(Loc("running"), TRUE, {})} ELSE {})     \* start()
+                         \cup (IF ~FlagUnderMutex THEN {A(Loc("running"), TRUE, {})} ELSE {})                       \* stop(), as it was
+      [] opc = "t_flag" -> {A(Loc("running"), TRUE, {"q"})}
+      [] opc \in {"s_lockq", "c_lockq", "t_lockq"} -> {A(Loc("queue"), TRUE, {"q"})}
+      [] opc = "s_lockpool" -> {A(Loc("pool"), FALSE, {"p"})} \cup {A(FinLoc(w), FALSE, {"p"}) : w \in Range(pool)}
+      [] opc = "s_create" -> {A(Loc("pool"), TRUE, {"p"})}
+      [] opc = "t_lockpool" -> {A(Loc("pool"), FALSE, {"p"})}
+      [] opc = "t_join" -> {A(Loc("pool"), TRUE, {"p"})}
+      [] OTHER -> {}
+OwnerEnabled == ENABLED (SCall \/ SPush \/ SPool \/ SCreate \/ CCall \/ CClear \/ TCall \/ TFlag \/ TLockPool \/ TJoin \/ TClearQ)
+WorkerAcc(w) ==
+    IF wpc[w] = "lockq" \/ (wpc[w] = "wait" /\ w \in woken)
+    THEN {A(Loc("queue"), TRUE, {"q"}), A(Loc("running"), FALSE, {"q"})}
+         \cup (IF ~running THEN {A(FinLoc(w), TRUE, {})} ELSE {})       \* exits: m_isFinished = true, no mutex
+    ELSE {}
+WorkerEnabled(w) == ENABLED (WAcq(w) \/ WWake(w))
+\* a worker is ordered after the owner's start() by thread creation and before `delete thread` by join: the
+\* accesses considered here all lie between those two points
+Conflict(a, b) == a.loc = b.loc /\ (a.w \/ b.w) /\ a.locks \cap b.locks = {}
+NoRace == /\ \A w \in Workers : (OwnerEnabled /\ WorkerEnabled(w)) =>
+                 \A a \in OwnerAcc, b \in WorkerAcc(w) : ~Conflict(a, b)
+          /\ \A w, u \in Workers : (w # u /\ WorkerEnabled(w) /\ WorkerEnabled(u)) =>
+                 \A a \in WorkerAcc(w), b \in WorkerAcc(u) : ~Conflict(a, b)
 MutexOK == /\ (qmx # -1 => wpc[qmx] = "prewait")
            /\ (pmx = 0 <=> opc \in {"s_create", "t_join"})
 =============================================================================
